@@ -71,8 +71,10 @@ type c10Group struct {
 
 // c10Direct is the base whose renderer flags are handed to html.NewRenderer(...) directly (core CommonMark: the other route
 // by which options reach the renderer).
+// c10Direct: renderer flags given to html.NewRenderer itself; po 1 also switches the parser options on and gives the flags in
+// the opposite order (the order of independent options must not matter).
 func c10Direct(po int) cfg.Spec {
-	return cfg.Spec{Ext: cfg.ExtCore, Direct: true, AutoHeadingID: po != 0, Attribute: po != 0}
+	return cfg.Spec{Ext: cfg.ExtCore, Direct: true, AutoHeadingID: po != 0, Attribute: po != 0, Rev: po != 0}
 }
 
 func c10Base(ext int, po int) cfg.Spec {
